@@ -42,6 +42,7 @@ class Run:
     def __init__(self, prefix):
         self.prefix, self.taken, self.alts = list(prefix), [], []
         self.pc = []
+        self.defs = []      # definitional facts (ghost unfoldings, library facts): never dropped when a scope's pc is restored
         self.counter = itertools.count()
         self.cache = {}
         self.notes = []
@@ -95,7 +96,7 @@ class Engine:
         self.stats["feas_checks"] += 1
         s = z3.Solver()
         s.set("rlimit", 2_000_000)
-        fs = list(self.run.pc) + list(extra)
+        fs = list(self.run.defs) + list(self.run.pc) + list(extra)
         for c in fs: s.add(c)
         for c in S.rounding_facts(fs): s.add(c)
         r = s.check()
@@ -103,6 +104,10 @@ class Engine:
 
     def assume(self, cond):
         self.run.pc.append(cond)
+
+    def assume_def(self, cond):
+        """a definitional fact: valid whatever the path (unfolding of a ghost function, library fact about a fresh symbol)"""
+        self.run.defs.append(cond)
 
     def decide(self, cond):
         """branch on a z3 Bool; returns the python bool taken on this run"""
@@ -144,7 +149,7 @@ class Engine:
     def oblige(self, name, goal, kind="post"):
         if isinstance(goal, bool):
             goal = z3.BoolVal(goal)
-        self.obligations.append(Obligation(name, list(self.run.pc), goal, kind, self.fn, tuple(self.run.taken)))
+        self.obligations.append(Obligation(name, list(self.run.defs) + list(self.run.pc), goal, kind, self.fn, tuple(self.run.taken)))
 
     def undecided(self, name, reason):
         o = Obligation(name, [], z3.BoolVal(False), "tool", self.fn, tuple(self.run.taken if self.run else ()))
